@@ -87,6 +87,7 @@ class Spec(PropSpec):
             "repeatedly (crash - continue - crash); sync_probability in {0, p} with the coin read from the verif-hooks log, "
             "block_size in {None, 2, 3} with the torn-write draws read from the log; one or two hosts; std and tokio shim; "
             "driven directly against an entered Fs (Fs::crash) and through a running Sim (Sim::crash + Sim::bounce); "
+            "io_uring write / read / fsync on descriptors the shims opened are mixed in with sync_probability 0 (data synced through another descriptor / front-end of the same file, crash at every prefix); "
             "a case is non-trivial when a dump after a crash shows at least one regular file; distinct = distinct (hosts, script)")
     assumptions = [
         "the background-sync coin and the torn-write block draws are inputs of the model (verif-hooks decision log); the theorems quantify over all their values",
@@ -160,6 +161,20 @@ class Spec(PropSpec):
                 c["cfg"]["host_returns"] = True
                 c["flavour"] += "+host-returned"
             cases.append(c)
+        # io_uring mixed in (sync_probability 0: the ring's coin is not in the decision log, none is drawn):
+        # data syncs through another descriptor / front-end of the same file, then a crash; random histories
+        # with positional writes / reads / fsyncs rerouted through the ring, crash at every prefix
+        us = F.uring_fsync_scenarios(rng)
+        cases += us
+        for b in rng.sample(us, 6 * k):
+            cases += crash_every_prefix(b, rng)
+        for _ in range(50 * k):
+            c = F.gen_safe(rng, stale=0.0, crash=0.12, setup_sync=rng.choice([1, 2, 2]), syncs=0.3,
+                           block_size=rng.choice([None, None, 2]))
+            cases.append(F.with_uring(c, rng))
+        for _ in range(4 * k):
+            b = F.with_uring(F.gen_safe(rng, stale=0.0, nsteps=rng.randrange(8, 14), setup_sync=2, syncs=0.3), rng)
+            cases += crash_every_prefix(b, rng)
         return cases
 
     def to_model(self, case, obs):
